@@ -582,6 +582,30 @@ func main() {
 	p("Definition connect_timeout_max_len_client : N := %d. (* connectClient.NewConn: len(encoded) <= N sends *)\n",
 		findLenBound("connectClient.NewConn", token.LEQ))
 
+	// connectClient.NewConn: `millis > 0` (or `>= 0`) guards sending Connect-Timeout-Ms
+	if f := e.fn("connectClient.NewConn"); f != nil {
+		min := int64(-1)
+		ast.Inspect(f.Body, func(n ast.Node) bool {
+			if be, ok := n.(*ast.BinaryExpr); ok {
+				if id, ok := be.X.(*ast.Ident); ok && id.Name == "millis" {
+					if v, ok := e.exprInt(be.Y); ok && min < 0 {
+						switch be.Op {
+						case token.GTR:
+							min = v + 1
+						case token.GEQ:
+							min = v
+						}
+					}
+				}
+			}
+			return true
+		})
+		if min < 0 {
+			e.fail("connectClient.NewConn: guard `millis > <n>` / `millis >= <n>` not found")
+		}
+		p("Definition connect_client_min_millis : N := %d. (* connectClient.NewConn sends the header iff millis >= this *)\n", min)
+	}
+
 	// ---- percent encoding alphabet: c < ' ' || c > '~' || c == '%' ----
 	p("\n(* ---- gRPC percent-encoding alphabet ---- *)\n")
 	for _, fname := range []string{"grpcPercentEncode", "grpcPercentEncodeSlow"} {
